@@ -179,6 +179,14 @@ func (s *State) apply(args []string, pc matcher.ParseContext) bool {
 		fresh := matcher.NewParseContext()
 		fresh.RejectOptions = pc.RejectOptions
 		if ok, rem := tr.Matcher.Match(args, &fresh); ok {
+			if fresh.RejectOptions == pc.RejectOptions && sameArgs(args, rem) {
+				// the matcher made no progress (env backed option, --):
+				// never go back to a state already entered since the last progress
+				if tr.Next == s || isStalled(tr.Next, pc.Stalled) {
+					continue
+				}
+				fresh.Stalled = append(append([]interface{}{}, pc.Stalled...), s)
+			}
 			matches = append(matches, &match{tr, rem, fresh})
 		}
 	}
@@ -190,5 +198,26 @@ func (s *State) apply(args []string, pc matcher.ParseContext) bool {
 		}
 	}
 
+	return false
+}
+
+func sameArgs(a, b []string) bool {
+	if len(a) != len(b) {
+		return false
+	}
+	for i := range a {
+		if a[i] != b[i] {
+			return false
+		}
+	}
+	return true
+}
+
+func isStalled(s *State, stalled []interface{}) bool {
+	for _, st := range stalled {
+		if st == s {
+			return true
+		}
+	}
 	return false
 }
